@@ -25,6 +25,7 @@ int __real_pthread_mutex_unlock(pthread_mutex_t *m);
 int __real_pthread_cond_wait(pthread_cond_t *c, pthread_mutex_t *m);
 int __real_pthread_cond_signal(pthread_cond_t *c);
 int __real_pthread_cond_broadcast(pthread_cond_t *c);
+size_t __real_fread(void *ptr, size_t size, size_t n, FILE *fp);
 
 typedef struct {
   int       active;     /* inside a logged work-queue call */
@@ -38,6 +39,8 @@ typedef struct {
   int64_t   last_nchunk;/* dd->nchunk seen when this thread last released nchunk_mutex */
   int       in_open;    /* main thread is inside esl_dsqdata_Open(): the first mutex it locks is dd->go_mutex */
   pthread_mutex_t *held[8]; int nheld;   /* lock discipline: mutexes this thread holds */
+  void     *seen;       /* unpacker: the chunk it saw in its inbox while holding inbox_mutex (it takes exactly that one) */
+  void     *mine;       /* unpacker: the chunk in its hands (taken from the inbox, not yet put into the outbox) */
 } TCTX;
 static __thread TCTX tctx;
 
@@ -53,7 +56,9 @@ static int             g_nevents = 0;
 static int             g_ptrace  = 0;      /* log the dsqdata pipeline regions */
 static int             g_lockerr = 0;      /* unlock / cond_wait on a mutex the thread does not hold */
 static pthread_mutex_t g_logmx   = PTHREAD_MUTEX_INITIALIZER;
-static void           *g_bufptr[256]; static int g_nbuf = 0;     /* chunk buffer -> id, in first-seen order */
+static void           *g_bufptr[256]; static int g_nbuf = 0;     /* chunk buffer (its psq address) -> id, in first-seen order */
+static uint64_t        g_bufsum[256]; static int g_bufsumset[256];  /* contents digest of a parked chunk, taken by the thread that parked it */
+static int             g_ownerr = 0;       /* a chunk changed while parked in a box / while in a consumer's hands: somebody else wrote to it */
 
 static int blkid(void *p) { return p ? (int)((int *)p - g_blk) : 0; }
 
@@ -119,13 +124,48 @@ static void log_thr(char end)
 }
 
 /* ---- dsqdata pipeline regions ---- */
-static int bufid(void *p)      /* caller holds g_logmx */
+static int bufid_psq(void *psq)      /* caller holds g_logmx */
 {
   int i;
-  if (! p) return -1;
-  for (i = 0; i < g_nbuf; i++) if (g_bufptr[i] == p) return i;
-  if (g_nbuf < 256) { g_bufptr[g_nbuf] = p; return g_nbuf++; }
+  for (i = 0; i < g_nbuf; i++) if (g_bufptr[i] == psq) return i;
+  if (g_nbuf < 256) { g_bufptr[g_nbuf] = psq; g_bufsumset[g_nbuf] = 0; return g_nbuf++; }
   return 999;
+}
+static int bufid(void *p)      /* caller holds g_logmx; a chunk is identified by its psq address (fixed at creation) */
+{
+  if (! p) return -1;
+  return bufid_psq(((ESL_DSQDATA_CHUNK *) p)->psq);
+}
+
+/* digest of everything a chunk owns: header fields, the whole smem buffer (capped), the metadata buffer, the pointer arrays */
+static uint64_t chunk_digest(ESL_DSQDATA_CHUNK *c)
+{
+  uint64_t h = 0xcbf29ce484222325ull; const unsigned char *b; int64_t i, n;
+  int64_t U = (g_dd->pack5 ? 6 : 15) * (int64_t) g_dd->chunk_maxpacket + g_dd->chunk_maxseq + 1;
+  int64_t ms = g_dd->chunk_maxseq;
+  U = (U + 3) & ~0x3;
+  h ^= (uint64_t) c->i0; h *= 0x100000001b3ull; h ^= (uint64_t) c->N; h *= 0x100000001b3ull; h ^= (uint64_t) c->pn; h *= 0x100000001b3ull;
+  b = (const unsigned char *) c->smem;     n = U > 65536 ? 65536 : U;                       for (i = 0; i < n; i++) { h ^= b[i]; h *= 0x100000001b3ull; }
+  b = (const unsigned char *) c->psq;      n = 4 * (int64_t) c->pn; if (n > 65536) n = 65536; for (i = 0; i < n; i++) { h ^= b[i]; h *= 0x100000001b3ull; }
+  b = (const unsigned char *) c->metadata; n = c->mdalloc > 65536 ? 65536 : c->mdalloc;     for (i = 0; i < n; i++) { h ^= b[i]; h *= 0x100000001b3ull; }
+  if (ms > 4096) ms = 4096;
+  b = (const unsigned char *) c->L;        n = ms * (int64_t) sizeof(int64_t);              for (i = 0; i < n; i++) { h ^= b[i]; h *= 0x100000001b3ull; }
+  b = (const unsigned char *) c->taxid;    n = ms * (int64_t) sizeof(int);                  for (i = 0; i < n; i++) { h ^= b[i]; h *= 0x100000001b3ull; }
+  return h;
+}
+static void digest_store(ESL_DSQDATA_CHUNK *c)     /* by the thread that parks the chunk, while it holds the box's mutex */
+{
+  int id; uint64_t h = chunk_digest(c);
+  __real_pthread_mutex_lock(&g_logmx);
+  id = bufid(c); if (id >= 0 && id < 256) { g_bufsum[id] = h; g_bufsumset[id] = 1; }
+  __real_pthread_mutex_unlock(&g_logmx);
+}
+static void digest_check(ESL_DSQDATA_CHUNK *c)     /* by the thread that is about to take / has taken / gives back the chunk */
+{
+  int id; uint64_t h = chunk_digest(c);
+  __real_pthread_mutex_lock(&g_logmx);
+  id = bufid(c); if (id >= 0 && id < 256 && g_bufsumset[id] && g_bufsum[id] != h) g_ownerr++;
+  __real_pthread_mutex_unlock(&g_logmx);
 }
 
 static char dd_mutex_kind(pthread_mutex_t *m, int *ret_u)
@@ -142,34 +182,102 @@ static char dd_mutex_kind(pthread_mutex_t *m, int *ret_u)
   return 0;
 }
 
+static char dd_who(void)
+{
+  pthread_t me = pthread_self(); int k;
+  if (pthread_equal(me, g_dd->loader_t)) return 'L';
+  for (k = 0; k < g_dd->n_unpackers; k++) if (pthread_equal(me, g_dd->unpacker_t[k])) return 'U';
+  return 'C';
+}
+
+/* the dsqdata mutexes this thread holds right now, canonical order ("i<u>" < "n" < "o<u>" < "r"), '+'-separated; "-" if none */
+static void held_str(char *o, size_t cap)
+{
+  char tok[8][12]; int nt = 0, i, j, u; char kind;
+  for (i = 0; i < tctx.nheld && nt < 8; i++) {
+    if ((kind = dd_mutex_kind(tctx.held[i], &u)) == 0) continue;
+    if (kind == 'i' || kind == 'o') snprintf(tok[nt++], 12, "%c%d", kind, u); else snprintf(tok[nt++], 12, "%c", kind);
+  }
+  for (i = 1; i < nt; i++) for (j = i; j > 0 && strcmp(tok[j-1], tok[j]) > 0; j--) { char t[12]; strcpy(t, tok[j]); strcpy(tok[j], tok[j-1]); strcpy(tok[j-1], t); }
+  o[0] = 0;
+  for (i = 0; i < nt; i++) snprintf(o + strlen(o), cap - strlen(o), "%s%s", i ? "+" : "", tok[i]);
+  if (nt == 0) snprintf(o, cap, "-");
+}
+
+/* a thread touches the contents of chunk <c> outside any mutex: "L/a/<buf>" (fread into it), "U/a/<u>/<buf>" (has unpacked it),
+ * "C/a/<tid>/<buf>" (reads it / hands it back). The validator checks that the model's owner of <buf> is that thread. */
+static void log_access(char who, int idx, int id)
+{
+  char buf[64];
+  if (! g_ptrace) return;
+  if (who == 'L') snprintf(buf, sizeof(buf), "%sL/a/%d", g_nevents ? ";" : "", id);
+  else            snprintf(buf, sizeof(buf), "%s%c/a/%d/%d", g_nevents ? ";" : "", who, idx, id);
+  tappend(buf);
+  g_nevents++;
+}
+
 static void log_pipe(pthread_mutex_t *m, char end)
 {
-  char buf[2200], kind, who; int u, k;
-  pthread_t me = pthread_self();
+  char buf[2200], hs[100], kind, who; int u, k;
   if (! g_ptrace || (kind = dd_mutex_kind(m, &u)) == 0 || kind == 'n') return;
-  who = 'C';
-  if (pthread_equal(me, g_dd->loader_t)) who = 'L';
-  else for (k = 0; k < g_dd->n_unpackers; k++) if (pthread_equal(me, g_dd->unpacker_t[k])) who = 'U';
+  who = dd_who();
+  held_str(hs, sizeof(hs));
   __real_pthread_mutex_lock(&g_logmx);
   if (kind == 'i') {
     ESL_DSQDATA_CHUNK *c = g_dd->inbox[u];
-    snprintf(buf, sizeof(buf), "%s%c/i/%d/%c/%c/%d/%" PRId64 "/%d", g_nevents ? ";" : "", who, u, tctx.phase ? 'w' : 'f', end,
-             bufid(c), c ? c->i0 : (int64_t) -1, g_dd->inbox_eod[u] ? 1 : 0);
+    snprintf(buf, sizeof(buf), "%s%c/i/%d/%c/%c/%d/%" PRId64 "/%d/%s", g_nevents ? ";" : "", who, u, tctx.phase ? 'w' : 'f', end,
+             bufid(c), c ? c->i0 : (int64_t) -1, g_dd->inbox_eod[u] ? 1 : 0, hs);
   } else if (kind == 'o') {
     ESL_DSQDATA_CHUNK *c = g_dd->outbox[u];
-    snprintf(buf, sizeof(buf), "%s%c/o/%d/%c/%c/%d/%" PRId64 "/%d/%" PRId64 "/%d", g_nevents ? ";" : "", who, u, tctx.phase ? 'w' : 'f', end,
-             bufid(c), c ? c->i0 : (int64_t) -1, g_dd->outbox_eod[u] ? 1 : 0, who == 'C' ? g_dd->nchunk : (int64_t) -1, tctx.tid);
+    snprintf(buf, sizeof(buf), "%s%c/o/%d/%c/%c/%d/%" PRId64 "/%d/%" PRId64 "/%d/%s", g_nevents ? ";" : "", who, u, tctx.phase ? 'w' : 'f', end,
+             bufid(c), c ? c->i0 : (int64_t) -1, g_dd->outbox_eod[u] ? 1 : 0, who == 'C' ? g_dd->nchunk : (int64_t) -1, tctx.tid, hs);
   } else {
     ESL_DSQDATA_CHUNK *c; size_t len;
     snprintf(buf, sizeof(buf), "%s%c/r/0/%c/%c/", g_nevents ? ";" : "", who, tctx.phase ? 'w' : 'f', end);
     len = strlen(buf);
     if (! g_dd->recycling) len += snprintf(buf + len, sizeof(buf) - len, "-");
     for (c = g_dd->recycling, k = 0; c && k < 200; c = c->nxt, k++) len += snprintf(buf + len, sizeof(buf) - len, "%s%d", k ? "." : "", bufid(c));
-    snprintf(buf + len, sizeof(buf) - len, "/%d", tctx.tid);
+    snprintf(buf + len, sizeof(buf) - len, "/%d/%s", tctx.tid, hs);
   }
   tappend(buf);
   g_nevents++;
   __real_pthread_mutex_unlock(&g_logmx);
+}
+
+/* ownership bookkeeping at the boundaries of the regions (the calling thread holds <m>) */
+static void own_after_acquire(pthread_mutex_t *m)      /* after lock / after cond_wait returned */
+{
+  int u; char kind;
+  if (! g_ptrace || ! g_dd || (kind = dd_mutex_kind(m, &u)) != 'i' || dd_who() != 'U') return;
+  tctx.seen = g_dd->inbox[u];
+  if (tctx.seen) digest_check((ESL_DSQDATA_CHUNK *) tctx.seen);        /* parked by the loader: nobody may have written to it since */
+}
+static void own_before_release(pthread_mutex_t *m)     /* before unlock */
+{
+  int u; char kind, who;
+  if (! g_ptrace || ! g_dd || (kind = dd_mutex_kind(m, &u)) == 0 || kind == 'n' || kind == 'r') return;
+  who = dd_who();
+  if (who == 'U' && kind == 'i') { tctx.mine = (g_dd->inbox[u] == NULL) ? tctx.seen : NULL; tctx.seen = NULL; }
+  if (who == 'U' && kind == 'o') { if (g_dd->outbox[u]) digest_store(g_dd->outbox[u]); tctx.mine = NULL; }
+  if (who == 'L' && kind == 'i') { if (g_dd->inbox[u])  digest_store(g_dd->inbox[u]); }
+}
+static void own_before_lock(pthread_mutex_t *m)        /* the unpacker has finished unpacking the chunk in its hands */
+{
+  int u;
+  if (! g_ptrace || ! g_dd || ! tctx.mine || dd_mutex_kind(m, &u) != 'o' || dd_who() != 'U') return;
+  __real_pthread_mutex_lock(&g_logmx);
+  log_access('U', u, bufid(tctx.mine));
+  __real_pthread_mutex_unlock(&g_logmx);
+}
+
+size_t __wrap_fread(void *ptr, size_t size, size_t n, FILE *fp)
+{
+  if (g_ptrace && g_dd && fp == g_dd->sfp && pthread_equal(pthread_self(), g_dd->loader_t)) {     /* fread(chu->psq, ...) by the loader */
+    __real_pthread_mutex_lock(&g_logmx);
+    log_access('L', 0, bufid_psq(ptr));
+    __real_pthread_mutex_unlock(&g_logmx);
+  }
+  return __real_fread(ptr, size, n, fp);
 }
 
 static void held_add(pthread_mutex_t *m) { if (tctx.nheld < 8) tctx.held[tctx.nheld++] = m; }
@@ -182,8 +290,10 @@ int __wrap_pthread_mutex_lock(pthread_mutex_t *m)
   int r;
   perturb();
   if (tctx.in_open && ! g_dd) g_dd = (ESL_DSQDATA *) ((char *) m - offsetof(ESL_DSQDATA, go_mutex));
+  own_before_lock(m);
   r = __real_pthread_mutex_lock(m);
   held_add(m);
+  own_after_acquire(m);
   { int u; if (g_ptrace && dd_mutex_kind(m, &u)) tctx.phase = 0; }
   if (g_wq && m == &g_wq->queueMutex && tctx.active) tctx.phase = 0;
   if (g_thr && m == &g_thr->startMutex && tctx.active) tctx.phase = 0;
@@ -196,7 +306,7 @@ int __wrap_pthread_mutex_unlock(pthread_mutex_t *m)
   if (g_wq && m == &g_wq->queueMutex && tctx.active) log_region('u');
   if (g_thr && m == &g_thr->startMutex && tctx.active) log_thr('u');
   if (g_dd && m == &g_dd->nchunk_mutex) tctx.last_nchunk = g_dd->nchunk;
-  if (g_dd) log_pipe(m, 'u');
+  if (g_dd) { own_before_release(m); log_pipe(m, 'u'); }
   held_del(m);
   r = __real_pthread_mutex_unlock(m);
   perturb();
@@ -220,6 +330,7 @@ int __wrap_pthread_cond_wait(pthread_cond_t *c, pthread_mutex_t *m)
   } else
   r = __real_pthread_cond_wait(c, m);
   { int u; if (g_ptrace && dd_mutex_kind(m, &u)) tctx.phase = 1; }
+  own_after_acquire(m);
   if (g_wq && m == &g_wq->queueMutex && tctx.active) tctx.phase = 1;
   if (g_thr && m == &g_thr->startMutex && tctx.active) tctx.phase = 1;
   return r;
@@ -591,6 +702,16 @@ static pthread_mutex_t rt_mutex = PTHREAD_MUTEX_INITIALIZER;
 
 typedef struct { uint64_t seed; int tid; int hold; } CARG;
 
+/* still the owner just before handing the chunk back: nobody else has written to it while this consumer worked on it */
+static void rt_giveback(int tid, ESL_DSQDATA_CHUNK *chu)
+{
+  if (g_ptrace) {
+    digest_check(chu);
+    __real_pthread_mutex_lock(&g_logmx); log_access('C', tid, bufid(chu)); __real_pthread_mutex_unlock(&g_logmx);
+  }
+  esl_dsqdata_Recycle(g_dd, chu);
+}
+
 static void *rt_consumer(void *p)
 {
   CARG *a = (CARG *) p; ESL_DSQDATA_CHUNK *chu; int st, i;
@@ -598,6 +719,10 @@ static void *rt_consumer(void *p)
   memset(&tctx, 0, sizeof(tctx)); tctx.rng = a->seed; tctx.tid = a->tid;
   while ((st = esl_dsqdata_Read(g_dd, &chu)) == eslOK) {
     int64_t seqno = tctx.last_nchunk - 1;
+    if (g_ptrace) {      /* this consumer now reads the chunk's contents, outside any mutex: it must be the owner, and the chunk as the unpacker left it */
+      digest_check(chu);
+      __real_pthread_mutex_lock(&g_logmx); log_access('C', a->tid, bufid(chu)); __real_pthread_mutex_unlock(&g_logmx);
+    }
     __real_pthread_mutex_lock(&rt_mutex);
     if (seqno < 0 || seqno >= rt_nchu_alloc) rt_oob++;
     else if (rt_chu[seqno].set) rt_dup++;
@@ -614,9 +739,9 @@ static void *rt_consumer(void *p)
     __real_pthread_mutex_unlock(&rt_mutex);
     perturb();
     kept[nkept++] = chu;
-    if (nkept >= a->hold) { while (nkept > 0) { esl_dsqdata_Recycle(g_dd, kept[--nkept]); perturb(); } }
+    if (nkept >= a->hold) { while (nkept > 0) { rt_giveback(a->tid, kept[--nkept]); perturb(); } }
   }
-  while (nkept > 0) esl_dsqdata_Recycle(g_dd, kept[--nkept]);
+  while (nkept > 0) rt_giveback(a->tid, kept[--nkept]);
   __real_pthread_mutex_lock(&rt_mutex);
   if (st == eslEOF && chu == NULL) rt_eofs++; else rt_err++;
   __real_pthread_mutex_unlock(&rt_mutex);
@@ -725,7 +850,7 @@ static void op_dsqrt(void)
   memset(&tctx, 0, sizeof(tctx)); tctx.rng = seed * 0x9E3779B97F4A7C15ull + 11;
   rt_nseq = n1; rt_rec = calloc(n1 + 1, sizeof(RREC)); rt_nchu_alloc = n1 + 2; rt_chu = calloc(rt_nchu_alloc, sizeof(CHREC));
   rt_dup = rt_eofs = rt_oob = rt_err = 0;
-  g_dd = NULL; g_tlen = 0; g_nevents = 0; if (g_trace) g_trace[0] = 0; g_nbuf = 0; g_lockerr = 0;
+  g_dd = NULL; g_tlen = 0; g_nevents = 0; if (g_trace) g_trace[0] = 0; g_nbuf = 0; g_lockerr = 0; g_ownerr = 0;
   g_ptrace = (int) h_argi("trace", 1);
   { ESL_DSQDATA *dd = NULL;
     tctx.in_open = 1;                       /* the wrapper derives g_dd from the first mutex locked inside Open() */
@@ -765,8 +890,8 @@ static void op_dsqrt(void)
   }
   for (; i < rt_nchu_alloc; i++) if (rt_chu[i].set) rt_oob++;      /* a gap in the chunk numbering */
   /* every chunk the reader created must have been destroyed by now (esl_dsqdata_Close() has returned) */
-  h_out("ok nseq=%d chunks=%s digest=%" PRIu64 " eofs=%d dup=%d miss=%d bad=%d oob=%d err=%d lockerr=%d leak=%d hdr=%s trace=%s", n1 - miss, nchunks ? cstr : "-", h,
-        rt_eofs, rt_dup, miss, bad, rt_oob, rt_err, g_lockerr, H_LEAKCHECK() ? 1 : 0, hdr, (g_ptrace && g_nevents) ? g_trace : "-");
+  h_out("ok nseq=%d chunks=%s digest=%" PRIu64 " eofs=%d dup=%d miss=%d bad=%d oob=%d err=%d lockerr=%d ownerr=%d leak=%d hdr=%s trace=%s", n1 - miss, nchunks ? cstr : "-", h,
+        rt_eofs, rt_dup, miss, bad, rt_oob, rt_err, g_lockerr, g_ownerr, H_LEAKCHECK() ? 1 : 0, hdr, (g_ptrace && g_nevents) ? g_trace : "-");
   g_ptrace = 0;
   free(cstr);
  CLEAN2:
